@@ -201,7 +201,7 @@ for _tc in range(5):
         O(id='der_write_tags.c%d.m%d' % (_tc, _tm), props=['C02', 'C07'], kind='bounded', entry='h_der_write_tags', functions=['der_write_tags', 'der_write_TL'],
           defines=['VF_TAGS_COUNT=%d' % _tc, 'VF_TAG_MODE=%d' % _tm], unwind=42, cbmc=['--unwindset', 'ber_fetch_length.0:10,ber_fetch_tag.0:8'],
           bound='descriptor with %d tags, tag_mode %d, tag numbers < 2^14, contents length <= 2^40; callback may fail at any call' % (_tc, _tm),
-          min_props=40, timeout=600, **DE)
+          min_props=40, timeout=900, tier=('thorough' if (_tc == 3 and _tm == 1) else 'quick'), **DE)
 
 # ---------------------------------------------------------------- primitive BER/DER codec
 PR = dict(harness='harness/h_prim.c', units=[SK + 'asn_codecs_prim.c', SK + 'ber_decoder.c'], include=[], backends=['sat'])
@@ -223,6 +223,20 @@ O(id='der_encode_primitive.malformed', props=['C07'], kind='bounded', entry='h_d
   unwind=42, cbmc=PRC, bound='structures with NULL / non-NULL buffer and size 0..4', min_props=50, **PR)
 O(id='ASN__PRIMITIVE_TYPE_free', props=['C14'], kind='width', entry='h_prim_free', functions=['ASN__PRIMITIVE_TYPE_free'], proves=['ASN__PRIMITIVE_TYPE_free'],
   unwind=4, cbmc=['--memory-leak-check'], bound='all three free methods, with and without a buffer (loop-free)', min_props=20, **PR)
+
+# ---------------------------------------------------------------- INTEGER / NativeInteger over DER
+ID = dict(harness='harness/h_integer_der.c', units=[SK + 'INTEGER.c', SK + 'NativeInteger.c'], include=[], backends=['sat'],
+          fp_restrict=[(r'::cb$|consume_bytes$|callback$', ['vf_cb'])])
+IDC = ['--unwindset', 'ber_fetch_length.0:16,ber_fetch_tag.0:16', '--no-malloc-may-fail']
+O(id='INTEGER_encode_der.canon', props=['C02', 'C06', 'C07'], kind='bounded', entry='h_INTEGER_encode_der', functions=['INTEGER_encode_der', 'der_encode_primitive'],
+  unwind=18, cbmc=IDC, bound='INTEGER buffers of 1..10 octets (up to 9 redundant leading octets)', min_props=50, timeout=600, **ID)
+O(id='NativeInteger_der', props=['C01', 'C02', 'C13'], kind='width', entry='h_NativeInteger_der',
+  functions=['NativeInteger_encode_der', 'INTEGER_encode_der', 'NativeInteger_decode_ber'], proves=['NativeInteger_encode_der'],
+  unwind=18, cbmc=IDC + ['--partial-loops', '--unwindset', 'NativeInteger_encode_der.0:8'], expected_fail=[r'NativeInteger_encode_der\.unwind\.0'],
+  trusted=['NativeInteger_encode_der byte-split loop `for(p = buf + 7; p >= buf; p--)` ends by forming a pointer before the array (UB in ISO C, outside CBMC pointer model): modelled as exactly sizeof(long)=8 iterations (--partial-loops, unwindset 8)'],
+  bound='all 2^64 long values', min_props=50, timeout=600, **ID)
+O(id='NativeInteger_decode_ber.b14', props=['C03', 'C04', 'C05'], kind='bounded', entry='h_NativeInteger_decode_ber', functions=['NativeInteger_decode_ber', 'ber_check_tags'],
+  unwind=18, cbmc=IDC, bound='every input of at most 14 octets, signed and unsigned native fields', min_props=50, timeout=600, **ID)
 
 UNVERIFIED = {
  'C07': ['asn_encode_to_buffer / asn_encode_to_new_buffer / uper_encode_to_buffer / uper_encode_to_new_buffer with a UPER type encoder: obligations exist (tier experimental) but do not discharge (symbolic-length memcpy of the 32-octet bit scratch space runs out of memory); asn_encode with UPER is covered',
